@@ -9,7 +9,8 @@
    capacity >= 0; every demand <= capacity); [cvrptw_customer_okb H d dur w], [mtvrp_customer_okb ...],
    [svrp_solvableb] are the solvability conditions of DESIGN appendix A for those environments. *)
 From Coq Require Import ZArith QArith Qround List Bool Arith.
-From RL4CO Require Import Base.Num Env.CVRP Env.CVRPProofs Data.GenRouting.
+From RL4CO Require Import Base.Num Env.CVRP Env.CVRPProofs Data.GenRouting Data.GenRouting2.
+From RL4CO Require Env.TSP Env.TSPProofs Env.MTSP Env.MTSPProofs Env.PCTSP Env.PCTSPProofs Env.MDCPDP Env.MDCPDPDefs Env.SDVRPProofs.
 Import ListNotations.
 Open Scope Z_scope.
 
@@ -91,6 +92,26 @@ Theorem C18_cvrptw_far_customer_refuted :
     fst w < snd w /\ (inject_Z (snd w) < d)%Q /\ cvrptw_customer_okb T d 0 w = false.
 Proof. exact cvrptw_far_customer_refuted. Qed.
 Print Assumptions C18_cvrptw_far_customer_refuted.
+
+(* CVRPTW: the deadline the environment reads is the EMITTED depot window end int(max_time).  For an integer
+   max_time (the documented default 480) it is max_time itself, so C18_cvrptw_gen_wf is about the environment's
+   horizon ... *)
+Theorem C18_cvrptw_depot_deadline_integer :
+  forall z : Z, 0 <= z -> snd (cvrptw_depot_window (inject_Z z)) = z.
+Proof. exact cvrptw_depot_deadline_integer. Qed.
+Print Assumptions C18_cvrptw_depot_deadline_integer.
+
+(* ... finding: for a NON-integer max_time it is not: max_time 480.5, a customer at distance 1/4, draws 511/512 and
+   4095/4096 (all hypotheses of C18_cvrptw_window_ok hold): window [479, 480] is fine for 480.5 but leaves no time to
+   return before the emitted depot deadline 480. *)
+Theorem C18_cvrptw_noninteger_deadline_refuted :
+  exists T d t1 t2 : Q, (0 <= d)%Q /\ (0 <= t1)%Q /\ (t1 < 1)%Q /\ (0 <= t2)%Q /\ (t2 < 1)%Q /\ (d <= T - d - 0)%Q /\
+    Qfloor d + 1 <= Qfloor (T - d - 0) /\
+    let w := cvrptw_window T d 0 t1 t2 in
+    let H := inject_Z (snd (cvrptw_depot_window T)) in
+    cvrptw_customer_okb T d 0 w = true /\ cvrptw_customer_okb H d 0 w = false /\ w = (479, 480) /\ (H == 480)%Q.
+Proof. exact cvrptw_noninteger_deadline_refuted. Qed.
+Print Assumptions C18_cvrptw_noninteger_deadline_refuted.
 
 (* MTVRP generate_time_windows, one customer: d > 0 its distance to the depot, s the service time, L > 0 the window
    length, r in [0, 1) the start draw, and 2 d / speed <= max_time - s - L.  Then the window opens no earlier than
@@ -201,6 +222,86 @@ Theorem C18_svrp_gen_wf :
     svrp_solvableb techs skills = true.
 Proof. exact gen_svrp_wf. Qed.
 Print Assumptions C18_svrp_gen_wf.
+
+(* ---- generators without arithmetic of their own, stated with the environment units' predicates (the distance
+   matrix is instance data: its metric facts are hypotheses, evaluated on every generated instance by the harness) *)
+(* TSP: an n x n symmetric distance matrix, n >= 1, is inside TSPEnv's input format. *)
+Theorem C18_tsp_gen_wf :
+  forall (n : nat) (D : list (list Z)),
+    (1 <= n)%nat -> length D = n -> (forall r : list Z, In r D -> length r = n) ->
+    (forall a b : nat, (a < n)%nat -> (b < n)%nat -> mget D a b = mget D b a) ->
+    TSPProofs.tsp_wfb (gen_tsp D) = true.
+Proof. exact gen_tsp_wf. Qed.
+Print Assumptions C18_tsp_gen_wf.
+
+(* mTSP: num_agents = randint(min_num_agents, max_num_agents + 1) with min_num_agents >= 1. *)
+Theorem C18_mtsp_gen_wf :
+  forall (lo hi k : Z) (n : nat) (D : list (list Z)),
+    1 <= lo -> lo <= k <= hi ->
+    (1 <= n)%nat -> length D = n -> (forall r : list Z, In r D -> length r = n /\ forall x : Z, In x r -> 0 <= x) ->
+    (forall a : nat, (a < n)%nat -> mget D a a = 0) ->
+    let i := gen_mtsp k D in
+    MTSPProofs.mtsp_wfb i = true /\ lo <= MTSP.nag i <= hi /\ ((2 <= n)%nat -> MTSPProofs.mtsp_solvableb i = true).
+Proof. exact gen_mtsp_wf. Qed.
+Print Assumptions C18_mtsp_gen_wf.
+
+(* PCTSP / SPCTSP, the arithmetic: penalty = rp * max_penalty, deterministic_prize = rd * 4 / num_loc,
+   stochastic_prize = rs * 2 * deterministic_prize for torch.rand draws rp, rd, rs in [0, 1). *)
+Theorem C18_pctsp_ranges :
+  forall (num_loc : Z) (maxpen rp rd rs : Q),
+    1 <= num_loc -> (0 <= maxpen)%Q ->
+    (0 <= rp)%Q -> (rp < 1)%Q -> (0 <= rd)%Q -> (rd < 1)%Q -> (0 <= rs)%Q -> (rs < 1)%Q ->
+    (0 <= pctsp_penalty maxpen rp)%Q /\ (pctsp_penalty maxpen rp <= maxpen)%Q /\
+    (0 <= pctsp_det num_loc rd)%Q /\ (pctsp_det num_loc rd < 4 / inject_Z num_loc)%Q /\
+    (0 <= pctsp_sto num_loc rd rs)%Q /\ (pctsp_sto num_loc rd rs <= 2 * pctsp_det num_loc rd)%Q.
+Proof. exact pctsp_ranges. Qed.
+Print Assumptions C18_pctsp_ranges.
+
+(* PCTSP / SPCTSP, a whole row scaled by any S > 0: inside PCTSPEnv's input format (one prize of each kind and one
+   penalty per customer, at least one customer), everything non-negative, penalties below the scaled max_penalty. *)
+Theorem C18_pctsp_gen_wf :
+  forall (S : Z) (stochastic : bool) (num_loc : Z) (maxpen : Q) (draws : list (Q * Q * Q)) (D : list (list Z)) (thr : Z),
+    0 < S -> 1 <= num_loc -> (0 <= maxpen)%Q -> draws <> [] ->
+    (forall rp rd rs : Q, In (rp, rd, rs) draws ->
+       (0 <= rp)%Q /\ (rp < 1)%Q /\ (0 <= rd)%Q /\ (rd < 1)%Q /\ (0 <= rs)%Q /\ (rs < 1)%Q) ->
+    let i := gen_pctsp S stochastic num_loc maxpen draws D thr in
+    PCTSPProofs.pctsp_wfb i = true /\ PCTSP.pn_of i = length draws /\
+    (forall x : Z, In x (PCTSP.dprize i) \/ In x (PCTSP.sprize i) \/ In x (PCTSP.pen i) -> 0 <= x) /\
+    (forall x : Z, In x (PCTSP.pen i) -> x <= scaleq S maxpen).
+Proof. exact gen_pctsp_wf. Qed.
+Print Assumptions C18_pctsp_gen_wf.
+
+(* the table-derived max_penalty (MAX_LENGTHS entry of the closest size * penalty_factor / num_loc) is non-negative *)
+Theorem C18_pctsp_max_penalty_nonneg :
+  forall (n : Z) (factor : Q), 1 <= n -> (0 <= factor)%Q -> (0 <= pctsp_max_penalty None n factor)%Q.
+Proof. exact pctsp_table_max_penalty_pos. Qed.
+Print Assumptions C18_pctsp_max_penalty_nonneg.
+
+(* MDCPDP: even number of customers, num_depot >= 1 depots, ONE capacity column drawn in [min_capacity, max_capacity]
+   with min_capacity >= 1, lateness weight in [0, 1]: inside MDCPDPEnv's input format and solvable. *)
+Theorem C18_mdcpdp_gen_wf :
+  forall (num_loc num_depot : nat) (lo hi c : Z) (D : list (list Z)) (one lw : Z) (opn : bool) (mode : nat),
+    (1 <= num_depot)%nat -> 1 <= lo -> lo <= c <= hi ->
+    let N := (num_depot + even_num_loc num_loc)%nat in
+    length D = N -> (forall r : list Z, In r D -> length r = N /\ forall x : Z, In x r -> 0 <= x) ->
+    (forall a : nat, (a < N)%nat -> mget D a a = 0) ->
+    0 < one -> 0 <= lw <= one ->
+    let i := gen_mdcpdp num_loc num_depot c D one lw opn mode in
+    MDCPDPDefs.md_wfb i = true /\ MDCPDPDefs.md_solvableb i = true /\ Nat.even (MDCPDP.nloc i) = true /\
+    MDCPDP.caps i = [c] /\ lo <= c <= hi.
+Proof. exact gen_mdcpdp_wf. Qed.
+Print Assumptions C18_mdcpdp_gen_wf.
+
+(* SDVRP uses CVRPGenerator unchanged: format, positive capacity (SDVRP's solvability), demands >= 1. *)
+Theorem C18_sdvrp_gen_wf :
+  forall (num_loc : Z) (override : option Z) (lo hi : Z) (us : list Q) (D : list (list Z)),
+    1 <= lo <= hi - 1 ->
+    (forall u : Q, In u us -> (inject_Z (lo - 1) <= u)%Q /\ (u < inject_Z (hi - 1))%Q) ->
+    hi - 1 <= cvrp_capacity override num_loc ->
+    let i := gen_cvrp (cvrp_capacity override num_loc) us D in
+    cvrp_wfb i = true /\ SDVRPProofs.sd_solvableb i = true /\ (forall k : Z, In k (dem i) -> 1 <= k).
+Proof. exact gen_sdvrp_wf. Qed.
+Print Assumptions C18_sdvrp_gen_wf.
 
 Example C18_routing_nonvacuous :
   cvrptw_window 480 (101 # 2) 0 (1 # 1000) (2 # 1000) = (50, 51) /\
